@@ -1,4 +1,5 @@
 import XV.Lemmas.Contract
+import XV.Lemmas.ContractRaw
 import XV.Props.C05
 /-!
 C09 — contract effects: what was pre-executed is what is verified and committed.
@@ -615,6 +616,308 @@ example : (preexec [1] 9 demoDB listReader demoUtxo
     (fun res => if res.isEmpty then some (.op (.put 1 0 2)) else some .fail)).map (·.outcome) = some .failed := by decide
 -- a transfer the paying account cannot cover: the call errors, there is no response
 example : preexec [1] 9 demoDB listReader demoUtxo (fun res => if res.isEmpty then some (.transfer 3 1 21) else none) = none := by decide
+
+/-! ### the declared write set as it stands in the transaction (`RawTx`): equal to the re-executed one, entry by entry
+
+`verifyTxRWSets` hands the whole list `TxOutputsExt` - transient entries and stored writes, in whatever order and
+however often an entry occurs - to `xmodel.Equal`, which sorts it and the re-executed write set and compares them
+pairwise.  The theorems above speak about the decoded view (`Tx`); here the list itself is the object. -/
+
+/-- decoding the canonical encoding gives the transaction back -/
+theorem raw_view (t : Tx) : t.raw.view = t := by
+  obtain ⟨id, prog, limit, fee, kin, kout, cin, cx, ev, ins, outs⟩ := t
+  simp only [Tx.raw, RawTx.view, kvOf_encodeW, trOf_encodeW, Tx.mk.injEq, true_and, and_true]
+  exact ⟨parseIn_of_perm (List.Perm.refl _), parseOut_of_perm (List.Perm.refl _), parseEv_of_perm (List.Perm.refl _)⟩
+
+/-- the canonical encoding commits exactly as the decoded transaction does -/
+theorem commitRaw_raw (db : DB) (t : Tx) : commitRaw db t.raw = commit db t := by
+  simp only [commitRaw, commit, Tx.raw, encodeW, nTransient]
+  rw [applyW_encode]
+  simp
+
+/-- A transaction accepted as it stands is accepted in its decoded view: every rejection theorem above
+(`tamper_*_rejected`, `reroute_rejected`, `stale_read_rejected`, `underpaid_rejected`, `failed_call_rejected` ...)
+therefore holds for the transaction as it stands, whatever the shape of its `TxOutputsExt`. -/
+theorem verifyRaw_view (bks : List Bucket) (price fuel : Nat) (db : DB) (t : RawTx)
+    (h : verifyRaw bks price fuel db t = true) : verify bks price fuel db t.view = true := by
+  simp only [verifyRaw, Bool.and_eq_true] at h
+  obtain ⟨⟨⟨⟨h1, h2⟩, h3⟩, h4⟩, h5⟩ := h
+  simp only [verify, Bool.and_eq_true]
+  refine ⟨⟨⟨⟨h1, h2⟩, h3⟩, ?_⟩, h5⟩
+  unfold reexecRaw at h4
+  unfold reexecOK
+  have e1 : t.view.kin = t.kin := rfl
+  have e2 : t.view.prog = t.prog := rfl
+  have e3 : t.view.limit = t.limit := rfl
+  rw [e1, e2, e3]
+  generalize exec bks (memReader (rsOf db t.kin)) replayReader t.prog fuel (Ctx.init t.view.cin) = res at h4 ⊢
+  obtain ⟨y, o⟩ := res
+  cases o with
+  | ok =>
+    simp only [Bool.and_eq_true] at h4 ⊢
+    have hp : t.wext.Perm (fullW bks y) := List.isPerm_iff.mp h4.2
+    have hk : (kvOf t.wext).Perm (wsetOf bks y.sb) := by
+      have := perm_kvOf hp
+      rwa [fullW, kvOf_encodeW] at this
+    have ht : (trOf t.wext).Perm (transientOf y.tok.uin y.tok.uout y.m.ev) := by
+      have := perm_trOf hp
+      rwa [fullW, trOf_encodeW] at this
+    refine ⟨⟨h4.1, ?_⟩, ?_⟩
+    · simp only [sameSet, RawTx.view, Bool.and_eq_true, beq_iff_eq, List.all_eq_true, List.contains_iff_mem]
+      exact ⟨hk.length_eq, fun e he => hk.mem_iff.mpr he⟩
+    · simp only [RawTx.view, beq_iff_eq]
+      rw [parseIn_of_perm ht, parseOut_of_perm ht, parseEv_of_perm ht]
+  | failed => simp at h4
+  | error => simp at h4
+
+/-- DECLARED WRITES = RE-EXECUTED WRITES, AS LISTS.  If a transaction is accepted, re-executing its request over
+its declared reads and its declared contract inputs succeeds, and the list `TxOutputsExt` is a permutation of the
+list `RWSet().WSet` of that re-execution after `Flush` (transient entries included): every entry - (bucket, key,
+value), or transient entry with its whole content - stands in the declared list exactly as often as the
+re-execution produced it.  Inclusion in either direction is not enough. -/
+theorem accepted_writes_reexecuted (bks : List Bucket) (price fuel : Nat) (db : DB) (t : RawTx)
+    (h : verifyRaw bks price fuel db t = true) :
+    ∃ y, exec bks (memReader (rsOf db t.kin)) replayReader t.prog fuel (Ctx.init t.view.cin) = (y, .ok) ∧
+      t.wext.Perm (fullW bks y) ∧ (∀ e, t.wext.count e = (fullW bks y).count e) ∧
+      t.wext.length = (fullW bks y).length := by
+  simp only [verifyRaw, Bool.and_eq_true] at h
+  have h4 := h.1.2
+  unfold reexecRaw at h4
+  generalize exec bks (memReader (rsOf db t.kin)) replayReader t.prog fuel (Ctx.init t.view.cin) = res at h4 ⊢
+  obtain ⟨y, o⟩ := res
+  cases o with
+  | ok =>
+    simp only [Bool.and_eq_true] at h4
+    have hp : t.wext.Perm (fullW bks y) := List.isPerm_iff.mp h4.2
+    exact ⟨y, rfl, hp, fun e => hp.count_eq e, hp.length_eq⟩
+  | failed => simp at h4
+  | error => simp at h4
+
+/-- the write set of any re-execution lists no entry twice (no transient entry, no (bucket, key)) -/
+theorem reexec_writes_nodup (bks : List Bucket) (hb : bks.Nodup) (fuel : Nat) (db : DB) (kin : List REntry)
+    (p : Prog) (cin : List TxIn) :
+    (fullW bks (exec bks (memReader (rsOf db kin)) replayReader p fuel (Ctx.init cin)).1).Nodup := by
+  have hinv := exec_inv bks (memReader_wf _ (rsOf_sorted db kin)) replayReader p fuel (Ctx.init cin) (Inv.init _)
+  exact encodeW_nodup (wsetOf_nodup hb hinv.sortedOut)
+
+/-- A declared write set in which some entry stands twice is refused - whatever the request, the reads, the
+contract inputs and the other entries are: no execution writes an entry twice.  (With `xmodel.Equal` weakened to
+"same length and every declared entry occurs in the re-executed set" such a list passes as soon as the copy
+stands in for another entry.) -/
+theorem repeated_write_rejected (bks : List Bucket) (hb : bks.Nodup) (price fuel : Nat) (db : DB) (t : RawTx)
+    (h : ¬ t.wext.Nodup) : verifyRaw bks price fuel db t = false := by
+  cases hv : verifyRaw bks price fuel db t with
+  | false => rfl
+  | true =>
+    obtain ⟨y, hy, hp, _, _⟩ := accepted_writes_reexecuted bks price fuel db t hv
+    have hn := reexec_writes_nodup bks hb fuel db t.kin t.prog t.view.cin
+    rw [hy] at hn
+    exact absurd (hp.nodup_iff.mpr hn) h
+
+/-- the mutant "entry `i` replaced by a copy of entry `j`" (same length) of ANY list `w`, in particular of the
+write set a pre-execution returned: refused -/
+theorem dup_write_rejected (bks : List Bucket) (hb : bks.Nodup) (price fuel : Nat) (db : DB) (t : RawTx)
+    (w : List WX) (i j : Nat) (hi : i < w.length) (hj : j < w.length) (hne : i ≠ j) (ht : t.wext = w.set i w[j]) :
+    verifyRaw bks price fuel db t = false :=
+  repeated_write_rejected bks hb price fuel db t (by rw [ht]; exact set_copy_not_nodup w i j hi hj hne)
+
+/-- the mutant "entry `i` dropped, a copy of entry `j` appended" (same length): refused -/
+theorem dropdup_write_rejected (bks : List Bucket) (hb : bks.Nodup) (price fuel : Nat) (db : DB) (t : RawTx)
+    (w : List WX) (i j : Nat) (hj : j < w.length) (hne : i ≠ j) (ht : t.wext = w.eraseIdx i ++ [w[j]]) :
+    verifyRaw bks price fuel db t = false :=
+  repeated_write_rejected bks hb price fuel db t (by rw [ht]; exact drop_copy_not_nodup w i j hj hne)
+
+/-- the mutant "a copy of entry `j` appended" (one entry more): refused -/
+theorem copied_write_rejected (bks : List Bucket) (hb : bks.Nodup) (price fuel : Nat) (db : DB) (t : RawTx)
+    (w : List WX) (j : Nat) (hj : j < w.length) (ht : t.wext = w ++ [w[j]]) :
+    verifyRaw bks price fuel db t = false :=
+  repeated_write_rejected bks hb price fuel db t (by rw [ht]; exact append_copy_not_nodup w j hj)
+
+/-- Declaring the same entries in another order (two entries swapped, transient entries moved behind stored
+ones ...) changes nothing: accepted iff the original is.  The versions the commit assigns follow the declared
+order (`commitRaw_exact`). -/
+theorem permuted_raw_accepted (bks : List Bucket) (price fuel : Nat) (db : DB) (t : RawTx)
+    (h : verifyRaw bks price fuel db t = true) (w' : List WX) (hp : w'.Perm t.wext) :
+    verifyRaw bks price fuel db { t with wext := w' } = true := by
+  obtain ⟨y, hy, hpy, _, _⟩ := accepted_writes_reexecuted bks price fuel db t h
+  have ht : (trOf t.wext).Perm (transientOf y.tok.uin y.tok.uout y.m.ev) := by
+    have := perm_trOf hpy
+    rwa [fullW, trOf_encodeW] at this
+  have ht' : (trOf w').Perm (transientOf y.tok.uin y.tok.uout y.m.ev) := (perm_trOf hp).trans ht
+  have ei : parseIn (trOf w') = parseIn (trOf t.wext) := by rw [parseIn_of_perm ht, parseIn_of_perm ht']
+  have eo : parseOut (trOf w') = parseOut (trOf t.wext) := by rw [parseOut_of_perm ht, parseOut_of_perm ht']
+  simp only [verifyRaw, Bool.and_eq_true] at h ⊢
+  obtain ⟨⟨⟨⟨h1, h2⟩, h3⟩, h4⟩, h5⟩ := h
+  refine ⟨⟨⟨⟨h1, h2⟩, ?_⟩, ?_⟩, ?_⟩
+  · simp only [effective, RawTx.view, ei, eo] at h3 ⊢
+    exact h3
+  · unfold reexecRaw
+    simp only [RawTx.view, ei]
+    have hy' : exec bks (memReader (rsOf db t.kin)) replayReader t.prog fuel (Ctx.init (parseIn (trOf t.wext))) = (y, .ok) := hy
+    rw [hy']
+    unfold reexecRaw at h4
+    rw [hy] at h4
+    simp only [Bool.and_eq_true] at h4 ⊢
+    exact ⟨h4.1, List.isPerm_iff.mpr (hp.trans hpy)⟩
+  · simp only [writesRead, RawTx.view, List.all_eq_true] at h5 ⊢
+    intro w hw
+    exact h5 w ((perm_kvOf hp).mem_iff.mp hw)
+
+/-- pre-executed ⇒ verified, for the transaction as it stands (same hypothesis as `preexec_verifies_partial`) -/
+theorem preexec_verifies_raw_partial (bks : List Bucket) (hb : transient ∉ bks) (price fuel id : Nat) (db : DB)
+    (hdb : db.WF) {σ : Type} (R : UReader σ) (hR : R.Lawful) (st : σ) (p : Prog) (pre : Pre)
+    (h : preexec bks fuel db R st p = some pre) (hok : pre.outcome = .ok)
+    (hpeak : pre.peak ≤ pre.used) :
+    verifyRaw bks price fuel db (assemble price id p pre).raw = true := by
+  have hv := preexec_verifies_partial bks hb price fuel id db hdb R hR st p pre h hok hpeak
+  obtain ⟨_, y, hy, hui, huo, _, hev, _, hpk, hw, _⟩ := reexec_of_preexec bks fuel db hdb R hR st p pre h
+  simp only [verify, Bool.and_eq_true] at hv
+  obtain ⟨⟨⟨⟨h1, h2⟩, h3⟩, _⟩, h5⟩ := hv
+  simp only [verifyRaw, Bool.and_eq_true, raw_view]
+  refine ⟨⟨⟨⟨h1, h2⟩, h3⟩, ?_⟩, h5⟩
+  unfold reexecRaw
+  rw [raw_view]
+  have e1 : (assemble price id p pre).raw.kin = pre.kin := rfl
+  have e2 : (assemble price id p pre).raw.prog = p := rfl
+  have e3 : (assemble price id p pre).cin = pre.cin := rfl
+  rw [e1, e2, e3, hy, hok]
+  simp only [Bool.and_eq_true, decide_eq_true_eq]
+  refine ⟨by rw [hpk]; exact hpeak, List.isPerm_iff.mpr ?_⟩
+  simp only [Tx.raw, assemble, fullW, hui, huo, hev, hw]
+  exact List.Perm.refl _
+
+/-- consequently it is committed by `SubmitTx`, and the commit is the one of the decoded transaction -/
+theorem preexec_submits_raw_partial (bks : List Bucket) (hb : transient ∉ bks) (price fuel id : Nat) (db : DB)
+    (hdb : db.WF) {σ : Type} (R : UReader σ) (hR : R.Lawful) (st : σ) (p : Prog) (pre : Pre)
+    (h : preexec bks fuel db R st p = some pre) (hok : pre.outcome = .ok)
+    (hpeak : pre.peak ≤ pre.used) :
+    submitRaw bks price fuel db (assemble price id p pre).raw = (commit db (assemble price id p pre), true) := by
+  unfold submitRaw
+  rw [preexec_verifies_raw_partial bks hb price fuel id db hdb R hR st p pre h hok hpeak, commitRaw_raw]
+  rfl
+
+/-- After the commit of a transaction as it stands every key holds what the LAST stored entry of `TxOutputsExt`
+for it says, with version (txid, position of that entry in the whole list - transient entries counted), and
+every key without an entry holds what it held before. -/
+theorem commitRaw_exact (db : DB) (t : RawTx) (b : Bucket) (k : Key) :
+    (commitRaw db t).cur b k =
+      match lastWX b k t.wext 0 with
+      | some (off, v) => ⟨mkVer t.id off, v⟩
+      | none => db.cur b k :=
+  applyW_cur t.id b k t.wext 0 db
+
+theorem commitRaw_exact_live (db : DB) (t : RawTx) (b : Bucket) (k : Key) :
+    find k ((commitRaw db t).live b) =
+      match lastWX b k t.wext 0 with
+      | some (off, v) => if v = 0 then none else some ⟨mkVer t.id off, v⟩
+      | none => find k (db.live b) :=
+  applyW_live t.id b k t.wext 0 db
+
+theorem commitRaw_untouched (db : DB) (t : RawTx) (b : Bucket) (k : Key)
+    (h : ∀ w ∈ kvOf t.wext, ¬ (w.1 = b ∧ w.2.1 = k)) : (commitRaw db t).cur b k = db.cur b k := by
+  rw [commitRaw_exact, lastWX_none b k t.wext 0 h]
+
+theorem commitRaw_wf (db : DB) (h : db.WF) (t : RawTx) : (commitRaw db t).WF := applyW_wf t.id t.wext 0 db h
+
+theorem submitRaw_wf (bks : List Bucket) (price fuel : Nat) (db : DB) (h : db.WF) (t : RawTx) :
+    (submitRaw bks price fuel db t).1.WF := by
+  unfold submitRaw
+  split
+  · exact commitRaw_wf db h t
+  · exact h
+
+/-- a refused submission of a transaction as it stands leaves the committed state as it was -/
+theorem rejected_raw_noop (bks : List Bucket) (price fuel : Nat) (db : DB) (t : RawTx)
+    (h : (submitRaw bks price fuel db t).2 = false) : (submitRaw bks price fuel db t).1 = db := by
+  unfold submitRaw at h ⊢
+  split
+  · rename_i hv; simp [hv] at h
+  · rfl
+
+/-! ### copies inside the transient entries, and the read set as a set -/
+
+/-- declared contract output `i` replaced by a copy of a different declared contract output `j` (whether or not the
+real outputs are changed alike): refused -/
+theorem dup_transfer_rejected (bks : List Bucket) (price fuel : Nat) (db : DB) (hdb : db.WF) {σ : Type}
+    (R : UReader σ) (hR : R.Lawful) (st : σ) (p : Prog)
+    (pre : Pre) (h : preexec bks fuel db R st p = some pre) (t : Tx) (hp : t.prog = p) (hk : t.kin = pre.kin)
+    (hi : t.cin = pre.cin) (i j : Nat) (hli : i < pre.cx.length) (hlj : j < pre.cx.length)
+    (hne : pre.cx[i] ≠ pre.cx[j]) (hc : t.cx = pre.cx.set i pre.cx[j]) : verify bks price fuel db t = false :=
+  tamper_transfer_rejected bks price fuel db hdb R hR st p pre h t hp hk hi
+    (by rw [hc]; exact set_copy_ne pre.cx i j hli hlj hne)
+
+/-- a declared event replaced by a copy of a different one, or two different declared events swapped: refused -/
+theorem dup_event_rejected (bks : List Bucket) (price fuel : Nat) (db : DB) (hdb : db.WF) {σ : Type}
+    (R : UReader σ) (hR : R.Lawful) (st : σ) (p : Prog)
+    (pre : Pre) (h : preexec bks fuel db R st p = some pre) (t : Tx) (hp : t.prog = p) (hk : t.kin = pre.kin)
+    (hi : t.cin = pre.cin) (i j : Nat) (hli : i < pre.ev.length) (hlj : j < pre.ev.length)
+    (hne : pre.ev[i] ≠ pre.ev[j])
+    (hc : t.ev = pre.ev.set i pre.ev[j] ∨ t.ev = (pre.ev.set i pre.ev[j]).set j pre.ev[i]) :
+    verify bks price fuel db t = false := by
+  apply tamper_event_rejected bks price fuel db hdb R hR st p pre h t hp hk hi
+  rcases hc with hc | hc
+  · rw [hc]; exact set_copy_ne pre.ev i j hli hlj hne
+  · rw [hc]; exact set_swap_ne pre.ev i j hli hlj hne
+
+/-- The declared read set counts as a SET of (bucket, key, version) entries: order and repetitions change nothing
+(two reads swapped, a copy of a read appended: same verdict), and a read replaced by a copy of another one is the
+transaction with that read dropped. -/
+theorem reads_as_set (bks : List Bucket) (price fuel : Nat) (db : DB) (t : RawTx) (kin' : List REntry)
+    (h : ∀ e, e ∈ kin' ↔ e ∈ t.kin) :
+    verifyRaw bks price fuel db { t with kin := kin' } = verifyRaw bks price fuel db t := by
+  have hrs : rsOf db kin' = rsOf db t.kin := by
+    apply rsOf_congr
+    intro b k
+    constructor
+    · rintro ⟨v, hv⟩; exact ⟨v, (h _).mp hv⟩
+    · rintro ⟨v, hv⟩; exact ⟨v, (h _).mpr hv⟩
+  have hcur : readsCurrent db kin' = readsCurrent db t.kin := by
+    rw [Bool.eq_iff_iff]
+    simp only [readsCurrent, List.all_eq_true]
+    exact ⟨fun hh e he => hh e ((h e).mpr he), fun hh e he => hh e ((h e).mp he)⟩
+  have hwr : writesRead ({ t with kin := kin' } : RawTx).view = writesRead t.view := by
+    rw [Bool.eq_iff_iff]
+    simp only [writesRead, RawTx.view, List.all_eq_true, List.any_eq_true]
+    constructor
+    · intro hh w hw
+      obtain ⟨r, hr, hc⟩ := hh w hw
+      exact ⟨r, (h r).mp hr, hc⟩
+    · intro hh w hw
+      obtain ⟨r, hr, hc⟩ := hh w hw
+      exact ⟨r, (h r).mpr hr, hc⟩
+  have heff : effective ({ t with kin := kin' } : RawTx).view = effective t.view := rfl
+  have hre : reexecRaw bks fuel db { t with kin := kin' } = reexecRaw bks fuel db t := by
+    simp only [reexecRaw, RawTx.view, hrs]
+  simp only [verifyRaw, hcur, hwr, heff, hre]
+
+/-! non-vacuity on the demonstration transaction: its `TxOutputsExt` holds 3 transient entries and 3 stored writes -/
+
+def demoRaw : RawTx := (assemble 1 7 demoProg demoPre).raw
+
+example : demoRaw.wext =
+    [.tr (.inputs [⟨0, 3, 5⟩, ⟨1, 3, 5⟩, ⟨3, 3, 5⟩]), .tr (.outputs [⟨1, 10⟩, ⟨2, 3⟩, ⟨3, 2⟩]), .tr (.events [⟨3, 3⟩]),
+     .kv (1, 2, 5), .kv (1, 3, 0), .kv (2, 0, 8)] := by decide
+example : verifyRaw [1, 2] 1 20 demoDB demoRaw = true := by decide
+-- the stored write of key 3 replaced by a second copy of the write of key 2 (the declared list keeps its length and
+-- every declared entry occurs in the re-executed set): refused; likewise drop + append, and an appended copy
+example : verifyRaw [1, 2] 1 20 demoDB { demoRaw with wext := demoRaw.wext.set 4 demoRaw.wext[3] } = false := by decide
+example : verifyRaw [1, 2] 1 20 demoDB { demoRaw with wext := demoRaw.wext.eraseIdx 4 ++ [demoRaw.wext[3]] } = false := by decide
+example : verifyRaw [1, 2] 1 20 demoDB { demoRaw with wext := demoRaw.wext ++ [demoRaw.wext[5]] } = false := by decide
+-- ... although every declared entry of the first mutant is a re-executed one and the lengths agree
+example : (demoRaw.wext.set 4 demoRaw.wext[3]).all (fun e => demoRaw.wext.contains e) = true ∧
+    (demoRaw.wext.set 4 demoRaw.wext[3]).length = demoRaw.wext.length := by decide
+-- the token side: the entry of the declared contract outputs replaced by a copy of the entry of the declared inputs,
+-- a stored write replaced by a copy of a transient entry, a transient entry replaced by a copy of a stored write
+example : verifyRaw [1, 2] 1 20 demoDB { demoRaw with wext := demoRaw.wext.set 1 demoRaw.wext[0] } = false := by decide
+example : verifyRaw [1, 2] 1 20 demoDB { demoRaw with wext := demoRaw.wext.set 5 demoRaw.wext[1] } = false := by decide
+example : verifyRaw [1, 2] 1 20 demoDB { demoRaw with wext := demoRaw.wext.set 2 demoRaw.wext[3] } = false := by decide
+-- two entries swapped (a transient one with a stored one): accepted, and the commit numbers versions by position
+example : verifyRaw [1, 2] 1 20 demoDB { demoRaw with wext := [demoRaw.wext[3], demoRaw.wext[1], demoRaw.wext[2],
+    demoRaw.wext[0], demoRaw.wext[4], demoRaw.wext[5]] } = true := by decide
+example : (commitRaw demoDB { demoRaw with wext := [demoRaw.wext[3], demoRaw.wext[1], demoRaw.wext[2],
+    demoRaw.wext[0], demoRaw.wext[4], demoRaw.wext[5]] }).cur 1 2 = ⟨mkVer 7 0, 5⟩ := by decide
+-- the hypotheses of `dup_write_rejected` are satisfiable (positions 4 and 3 of the demonstration list)
+example : (4 : Nat) < demoRaw.wext.length ∧ (3 : Nat) < demoRaw.wext.length ∧ (4 : Nat) ≠ 3 ∧ ([1, 2] : List Nat).Nodup := by decide
 
 /-! ### the same payment made twice: counting matters -/
 
